@@ -31,6 +31,7 @@ THEOREMS = [
     'IblVerif.C02.source_outlives_replacement',
     'IblVerif.C02.final_names_complete_after_rewrites',
     'IblVerif.C02.compress_publishes_current_content',
+    'IblVerif.C02.rename_failure_next_to_stale_cbin_counterexample',
     'IblVerif.C02.clean_directories_published',
     'IblVerif.C02.hdr_consistent',
     'IblVerif.C02.compress_failure_touches_only_tmp',
@@ -70,11 +71,15 @@ ASSUMPTIONS = [
     'the content of x.bin may be REPLACED between calls (same ns/nc, other samples: an environment event `rewrite`), earlier outputs staying on disk; '
     'the "current content" of the recording is what the last rewrite - or the last successful decompress_file - put into x.bin',
     'x.meta exists and is never touched; one chunk size per recording (compress_file is always called with the same chunk_duration)',
-    'faults are exceptions raised inside mtscomp while chunk k is produced (not process crashes between two system calls, not failures of rename/unlink); '
+    'faults are exceptions: (a) raised inside mtscomp while chunk k is produced, (b) raised by the rename (compress_file) / shutil.move '
+    '(decompress_to_scratch) that publishes the finished temporary file - injected by patching pathlib.Path.rename / shutil.move for that destination, '
+    'or for real by a directory sitting at x.cbin; not process crashes between two system calls, not failures of unlink; '
     'with n_threads = T the chunks of one batch are produced before any is written, so (k // T) * T chunks have reached the file',
     'the atomicity trace theorems exclude a fault inside the PLAIN decompress_file (mtscomp writes straight to x.bin; the property claims atomic '
     'publication only for compression and decompress_to_scratch); the model reproduces the partial x.bin and the correspondence covers it',
-    'x.ch is written under its final name by mtscomp before the rename of x.cbin_tmp; no fault point is modelled between the two',
+    'x.ch is written under its final name by mtscomp before the rename of x.cbin_tmp (modelled); a failing rename is not injected when an x.cbin that is not exactly the compressed image of the current x.bin '
+    '(stale: other content or another length) is present: x.ch then stops describing that x.cbin and mtscomp\'s behaviour on the pair is unspecified '
+    '(known finding compress_rename_failure_next_to_stale_cbin_orphans_header, Lean: rename_failure_next_to_stale_cbin_counterexample)',
     'sample selectors of the transparency claim: Python int >= -ns and slices with positive or absent step (list/array sample selectors raise '
     'NotImplementedError on .cbin; negative steps, ints < -ns and numpy-integer indices are the recorded findings)',
     'readers are opened with the default open=True; reader objects left behind by an in-place decompress_file(keep_original=False) are not read from '
@@ -416,7 +421,67 @@ def _default_threads(t):
 def _err_name(e):
     if isinstance(e, Boom):
         return 'err Fault'
+    if isinstance(e, OSError) and not isinstance(e, FileNotFoundError):
+        return 'err OSError'          # PermissionError, IsADirectoryError, ... raised by a rename / move
     return 'err ' + type(e).__name__
+
+
+@contextlib.contextmanager
+def _publish_fault(how, rec, kind):
+    """Make the system call that PUBLISHES the finished temporary file fail.
+    how = 'patch': pathlib.Path.rename (compress_file: destination *.cbin) / shutil.move (decompress_to_scratch: destination
+    *.bin) raise PermissionError for that destination only;  how = 'dir' (compress_file only): a directory sits at x.cbin,
+    so the real rename raises IsADirectoryError — no monkeypatching; the obstacle is removed after the call."""
+    import pathlib
+    import shutil as _sh
+    if not how:
+        yield
+        return
+    if how == 'dir':
+        rec.path('cbin').mkdir()
+        try:
+            yield
+        finally:
+            if rec.path('cbin').is_dir():
+                _sh.rmtree(rec.path('cbin'))
+        return
+    if kind == 'compress':
+        orig = pathlib.Path.rename
+
+        def rename(self, target):
+            if Path(target).suffix == '.cbin':
+                raise PermissionError(13, 'injected: rename to the final name refused', str(target))
+            return orig(self, target)
+        pathlib.Path.rename = rename
+        try:
+            yield
+        finally:
+            pathlib.Path.rename = orig
+    else:
+        orig = _sh.move
+
+        def move(src, dst, *a, **kw):
+            if Path(dst).suffix == '.bin':
+                raise PermissionError(13, 'injected: move to the final name refused', str(dst))
+            return orig(src, dst, *a, **kw)
+        _sh.move = move
+        try:
+            yield
+        finally:
+            _sh.move = orig
+
+
+def _stale_cbin(rec):
+    """x.bin and x.cbin both present and x.cbin is not exactly the compressed image of the current x.bin (other version,
+    or another number of chunks)."""
+    pb, pc = rec.path('bin'), rec.path('cbin')
+    if not (pb.is_file() and pc.is_file()):
+        return False
+    raw = rec._classify_raw(pb.read_bytes())
+    comp = rec._classify_comp(pc.read_bytes())
+    if raw in ('x', 'e') or raw.startswith('?'):
+        return True
+    return comp != '.'.join(str(1000 + int(i)) for i in raw.split('.'))
 
 
 def _suffix_name(p):
@@ -454,10 +519,18 @@ class Engine:
         kind = op['op']
         k, T = op.get('k'), op.get('T', 1)
         fired = []
+        pf = op.get('pf')
+        if kind == 'compress' and pf:
+            if _stale_cbin(rec):
+                pf = None      # excluded class (known finding compress_rename_failure_next_to_stale_cbin_orphans_header)
+            elif pf == 'dir' and rec.path('cbin').exists():
+                pf = 'patch'
+        if kind == 'decompress':
+            pf = None
         try:
             if kind == 'compress':
                 n_src = rec.n_chunks_of('bin')
-                with _inject('c', k, fired):
+                with _inject('c', k, fired), _publish_fault(pf, rec, 'compress'):
                     ret = sr.compress_file(keep_original=bool(op['keep']), chunk_duration=rec.chunk_duration, n_threads=T)
                 out = 'ok' if Path(ret) == rec.path('cbin') else f'ok(ret={Path(ret).name})'
             elif kind == 'decompress':
@@ -471,7 +544,7 @@ class Engine:
             else:
                 n_src = rec.n_chunks_of('cbin')
                 T = self.tdef
-                with _default_threads(self.tdef), _inject('d', k, fired):
+                with _default_threads(self.tdef), _inject('d', k, fired), _publish_fault('patch' if pf else None, rec, 'toscratch'):
                     ret = sr.decompress_to_scratch(rec.scratch if op['scratch'] else None)
                 want = rec.path('sbin') if op['scratch'] else rec.path('bin')
                 out = 'ok' if Path(ret) == want else f'ok(ret={Path(ret).name})'
@@ -479,12 +552,13 @@ class Engine:
             out = _err_name(e)
         j = 'N' if (k is None or k >= n_src) else str((k // T) * T)
         if kind == 'compress':
-            line = f"compress {fb} {int(op['keep'])} {j}"
+            line = f"compress {fb} {int(op['keep'])} {j} {int(bool(pf))}"
         elif kind == 'decompress':
             line = f"decompress {fb} {int(op['keep'])} {int(op['overwrite'])} {j}"
         else:
-            line = f"toscratch {fb} {int(op['scratch'])} {j}"
-        return out, _suffix_name(sr.file_bin), line, bool(fired)
+            line = f"toscratch {fb} {int(op['scratch'])} {j} {int(bool(pf))}"
+        self.last_pf = pf
+        return out, _suffix_name(sr.file_bin), line, bool(fired) or (bool(pf) and out == 'err OSError')
 
     def close(self):
         for sr in self.readers:
@@ -533,6 +607,9 @@ def _gen_op(rng, n, fb):
         op['T'] = int(rng.choice([1, 1, 2, 3]))
     else:
         op['scratch'] = bool(rng.random() < 0.5)
+    # the rename / move that publishes the result fails (mostly on calls with no chunk fault, where it is reached)
+    if kind != 'decompress' and rng.random() < (0.3 if op['k'] is None else 0.05):
+        op['pf'] = str(rng.choice(['patch', 'dir'])) if kind == 'compress' else 'patch'
     return op
 
 
@@ -693,6 +770,11 @@ def _all_ops(n):
                     ops.append({'op': 'decompress', 'k': k, 'keep': keep, 'overwrite': ov, 'T': 1, 'reader': 'new:' + e})
             for scr in (True, False):
                 ops.append({'op': 'toscratch', 'k': k, 'scratch': scr, 'reader': 'new:' + e})
+        for keep in (True, False):
+            for pf in ('patch', 'dir'):
+                ops.append({'op': 'compress', 'k': None, 'keep': keep, 'T': 1, 'reader': 'new:' + e, 'pf': pf})
+        for scr in (True, False):
+            ops.append({'op': 'toscratch', 'k': None, 'scratch': scr, 'reader': 'new:' + e, 'pf': 'patch'})
     return ops
 
 
@@ -776,6 +858,8 @@ def correspondence_fs(ctx, count):
                     'init=' + case['init'], 'pool=' + case.get('pool', 'serial')]
             if info.get('box'):
                 tags.append('exhaustive_box')
+            if op.get('pf'):
+                tags.append('publish_fault=' + ('fired' if info['outcome'] == 'err OSError' else 'not_reached'))
             if info.get('rewrites'):
                 tags.append('after_rewrite_of_bin')
             if info.get('stale_outputs'):
@@ -1101,6 +1185,11 @@ def oracle_fs(case):
         where = f"call #{info['i']} {kind}"
         if info['outcome'].startswith('ok('):
             viol.append(f'{where}: returned an unexpected path: {info["outcome"]}')
+        # after ANY failed call the reader still points at its (existing) source
+        if not ok and B.get(info['fb_before']) is not None and A.get(info['fb_before']) is None:
+            viol.append(f'{where} failed ({info["outcome"]}) and its source x.{info["fb_before"]} is gone (removed before its replacement carried the final name)')
+        if not ok and info['fb_after'] != info['fb_before']:
+            viol.append(f'{where} failed ({info["outcome"]}) but the reader now points at {info["fb_after"]} instead of {info["fb_before"]}')
         # a call on a usable source, with no fault injected, must do its job (lossless round trip must be possible)
         if not ok and not info['fired']:
             fb = info['fb_before']
@@ -1117,7 +1206,10 @@ def oracle_fs(case):
             if not ok:
                 if A['bin'] != B['bin']:
                     viol.append(f'{where} failed ({info["outcome"]}) but the source .bin was modified/removed')
-                if A['cbin'] != B['cbin'] or A['ch'] != B['ch']:
+                # x.ch is written by mtscomp under its final name once all chunks are in x.cbin_tmp: after a failure it must be
+                # unchanged, or the complete header of the complete temporary file
+                ch_ok = A['ch'] == B['ch'] or (A['cbin_tmp'] is not None and _decode(rec, A['cbin_tmp'], A['ch']) == B['bin'])
+                if A['cbin'] != B['cbin'] or not ch_ok:
                     viol.append(f'{where} failed ({info["outcome"]}) but a file carrying the final name (.cbin/.ch) was created or changed: '
                                 f'.cbin {None if A["cbin"] is None else len(A["cbin"])} bytes (complete would be {len(rec.ref_cbin)})')
             else:
@@ -1433,6 +1525,33 @@ def known_findings(ctx):
     def numpy_int():
         return _demo_pair(lambda sc, sb, ns: sb[np.int64(5), :].shape == (3,) and sc[np.int64(5), :].shape == (0, 3))
 
-    return {'cbin_negative_step_sample_slice': neg_step,
+    def orphan_header():
+        # compress(keep) -> rewrite x.bin -> compress whose rename fails: the old x.cbin is intact but x.ch describes x.cbin_tmp
+        import spikeglx
+        _setup()
+        rec = Rec({'flavour': 'nidq', 'nc': 3, 'cs': 40, 'sizes': [40, 40, 20], 'seed': 1})
+        rs = []
+        try:
+            with _pool('serial'):
+                rec.init('bin')
+                sb = spikeglx.Reader(rec.path('bin')); rs.append(sb)
+                sb.compress_file(keep_original=True, chunk_duration=rec.chunk_duration, n_threads=1)
+                rec.rewrite(1)
+                sb2 = spikeglx.Reader(rec.path('bin')); rs.append(sb2)
+                try:
+                    with _publish_fault('patch', rec, 'compress'):
+                        sb2.compress_file(keep_original=True, chunk_duration=rec.chunk_duration, n_threads=1)
+                    return False
+                except PermissionError:
+                    pass
+            st = rec.state_string()
+            return 'bin=100.101.102 ' in st and ' cbin=1000.1001.1002 ' in st and ' ch=1100.1101.1102 ' in st
+        finally:
+            for r in rs:
+                r.close()
+            rec.close()
+
+    return {'compress_rename_failure_next_to_stale_cbin_orphans_header': orphan_header,
+            'cbin_negative_step_sample_slice': neg_step,
             'cbin_int_sample_index_below_minus_ns_wraps': below_minus_ns,
             'cbin_numpy_integer_sample_index_empty': numpy_int}
